@@ -3,6 +3,9 @@
 import json, os
 V = os.path.dirname(os.path.dirname(os.path.abspath(__file__)))
 claims = json.load(open(os.path.join(V, "tools", "claims.json")))
+import glob
+for f in sorted(glob.glob(os.path.join(V, "tools", "claims.d", "*.json"))):
+    claims.update(json.load(open(f)))
 props = [json.loads(l)["id"] for l in open(os.path.join(V, "properties.jsonl"))]
 checks, na = [], []
 for pid in props:
